@@ -1,4 +1,5 @@
 import Fdo.Proto.TO0
+import Fdo.Facts
 /-
 C06 — the rendezvous server registers a redirect only for the voucher's current owner.
 Hash, voucher-entry verification and the to1d signature check are universally quantified
@@ -112,5 +113,17 @@ example :
     acceptOwner (fun _ => some (fun b => [UInt8.ofNat b.length])) (fun _ => true) (fun k _ => k == [9])
       (some [4, 2]) (some fun r => some (r / 2)) 1000 m = .accept 50 1050 := by
   decide
+
+
+/-- **What the source does, in which order** (regenerated call-order facts of
+`TO0Server.acceptOwner`): the to0d hash comparison, the entry-chain verification, the session-nonce
+comparison and the to1d signature verification under the voucher's owner key all precede the
+acceptance policy and the storing of the blob. -/
+theorem code_facts :
+    Fdo.Facts.allBefore "TO0Server.acceptOwner" ["Equal", "VerifyEntries", "TO0SignNonce", "OwnerPublicKey", "Verify"] "SetRVBlob" = true ∧
+    Fdo.Facts.before "TO0Server.acceptOwner" "OwnerPublicKey" "Verify" = true ∧
+    Fdo.Facts.before "TO0Server.acceptOwner" "Verify" "AcceptVoucher" = true ∧
+    Fdo.Facts.before "TO0Server.acceptOwner" "AcceptVoucher" "SetRVBlob" = true ∧
+    Fdo.Facts.atLeast "TO0Server.acceptOwner" "Equal" 2 = true := by decide +kernel
 
 end Fdo.Props.C06
